@@ -398,17 +398,24 @@ pub(crate) fn parse_unknown_ifdata(
                 } else {
                     // try again, looks like the number is a float instead
                     parser.undo_get_token();
-                    let floatnum = parser.get_float(context)?; // if this also returns an error, it is neither int nor float, which is a genuine parse error
-                    let line_offset = parser.get_line_offset();
-                    let value = f64::from(floatnum);
-                    if value.fract() == 0.0
-                        && (f64::from(i32::MIN)..=f64::from(i32::MAX)).contains(&value)
-                    {
-                        // e.g. "1e3": this value is written as the integer "1000", so it is stored
-                        // as an integer. Otherwise the data would be different after write + reload
-                        items.push(GenericIfData::Long(line_offset, (value as i32, false)));
+                    if let Ok(floatnum) = parser.get_float(context) {
+                        let line_offset = parser.get_line_offset();
+                        let value = f64::from(floatnum);
+                        if value.fract() == 0.0
+                            && (f64::from(i32::MIN)..=f64::from(i32::MAX)).contains(&value)
+                        {
+                            // e.g. "1e3": this value is written as the integer "1000", so it is stored
+                            // as an integer. Otherwise the data would be different after write + reload
+                            items.push(GenericIfData::Long(line_offset, (value as i32, false)));
+                        } else {
+                            items.push(GenericIfData::Float(line_offset, floatnum));
+                        }
                     } else {
-                        items.push(GenericIfData::Float(line_offset, floatnum));
+                        // the value does not fit into a 32-bit float, e.g. "1e300"
+                        parser.undo_get_token();
+                        let doublenum = parser.get_double(context)?; // if this also returns an error, it is neither int nor float, which is a genuine parse error
+                        let line_offset = parser.get_line_offset();
+                        items.push(GenericIfData::Double(line_offset, doublenum));
                     }
                 }
             }
